@@ -1,6 +1,6 @@
 (* Proofs about Model/ReportModel.v (over the regenerated Gen/GenCutWarn.v and Gen/GenLogFilter.v). *)
 From Coq Require Import ZArith List Bool Lia.
-From HV Require Import Gen.GenCutWarn Gen.GenLogFilter Model.ReportModel.
+From HV Require Import Gen.GenCutWarn Gen.GenLogFilter Gen.GenRunTest Spec.PanicSpec Model.RunnerModel Model.ReportModel Proofs.RunnerProofs.
 Import ListNotations.
 Open Scope Z_scope.
 
@@ -98,3 +98,40 @@ Proof.
     + apply depth_msg_inj in Hr. apply Hnotin. rewrite <- Hr.
       apply (in_map (fun t0 => test_id (tr_fun t0))). exact Hin.
 Qed.
+
+(* ------------------------------------------------------------------ one SEVM, several transactions *)
+
+Lemma fold_or_acc : forall states acc,
+  fold_left (fun a b : bool => a || b) states acc = acc || existsb (fun b => b) states.
+Proof.
+  induction states as [|b r IH]; intros acc; cbn [fold_left existsb]; [rewrite orb_false_r; reflexivity|].
+  rewrite IH. rewrite orb_assoc. reflexivity.
+Qed.
+
+(* the bounded-loop log read after the last transaction is non-empty iff SOME transaction cut a loop *)
+Theorem sevm_logs_accumulate : forall states, sevm_logs_after states = true <-> In true states.
+Proof.
+  intros states. unfold sevm_logs_after, run_message_resets_logs. rewrite fold_or_acc. cbn [orb].
+  rewrite existsb_exists. split.
+  - intros [b [Hin Hb]]. subst b. exact Hin.
+  - intros H. exists true. split; [exact H | reflexivity].
+Qed.
+
+(* invariant mode, every transaction of the run: setUp, the target transactions (private SEVMs) and the invariant
+   transaction executed on EVERY frontier state by one SEVM *)
+Theorem invariant_run_loop_bound_warned : forall s targets states,
+  loop_bound_warned (mkInvRun s targets (sevm_logs_after states)) = true <->
+  (s = true \/ In true targets \/ In true states).
+Proof.
+  intros s targets states. rewrite loop_bound_warned_iff. cbn [iv_setup iv_targets iv_test].
+  rewrite sevm_logs_accumulate. tauto.
+Qed.
+
+(* an opcode without a handler stops the path as a STUCK path (a HalmosException), not as an ordinary exceptional halt *)
+Theorem unsupported_opcode_stuck :
+  unsupported_opcode_is_halmos_exception = true /\
+  forall (Q : Type) (l : leaf Q), l_err Q l = EHalmos -> is_stuck Q l = true.
+Proof.
+  split; [reflexivity|]. intros Q l H. unfold is_stuck. rewrite H. destruct (l_data l); reflexivity.
+Qed.
+
